@@ -2020,3 +2020,130 @@ Lemma draw_zero_width_refuted :
               surface_ok_b (fun c => c) 0 lines 5 5 obs = true /\
               surface_exact_b (fun c => c) 0 lines 5 5 obs = false.
 Proof. cbn zeta. split; [reflexivity|]. eexists. split; [reflexivity|]. split; reflexivity. Qed.
+
+(* ---------- Draw: the size of the surface ---------- *)
+Lemma max_width_nonneg lines : 0 <= max_width lines.
+Proof. induction lines as [|l t IH]; cbn [max_width]; lia. Qed.
+
+Lemma max_width_ge lines l : In l lines -> sumw l <= max_width lines.
+Proof.
+  induction lines as [|x t IH]; intros Hin; [destruct Hin|].
+  cbn [max_width]. destruct Hin as [->|Hin]; [lia|]. specialize (IH Hin). lia.
+Qed.
+
+Lemma zget_firstn_In {A} (l : list A) i n x : zget l i = Some x -> i < n -> In x (firstn (Z.to_nat n) l).
+Proof.
+  unfold zget. destruct (i <? 0) eqn:E; [discriminate|]. intros Hg Hlt.
+  assert (Hn : (Z.to_nat i < Z.to_nat n)%nat) by lia.
+  revert Hn Hg. generalize (Z.to_nat i) (Z.to_nat n). clear. intros k n. revert k n.
+  induction l as [|y t IH]; intros k n Hn Hg; [destruct k; discriminate|].
+  destruct n as [|n]; [lia|]. cbn [firstn]. destruct k as [|k]; cbn in Hg.
+  - injection Hg as ->. left; reflexivity.
+  - right. apply (IH k n); [lia|exact Hg].
+Qed.
+
+(* findContainerSize: the width is that of the widest measured line (the first H - H0 ones), limited
+   to Max.Width *)
+Lemma container_size_width MaxW MaxH : 0 <= MaxW -> forall lines W0 H0 W H,
+  Forall line_ok lines -> 0 <= H0 -> H0 + zlen lines < 65536 -> 0 <= W0 <= MaxW ->
+  container_size lines MaxW MaxH W0 H0 = (W, H) ->
+  H0 <= H /\ W = Z.min MaxW (Z.max W0 (max_width (firstn (Z.to_nat (H - H0)) lines))).
+Proof.
+  intros HM. induction lines as [|l t IH]; intros W0 H0 W H Hok HH0 Hlen HW0 E; cbn [container_size] in E.
+  - injection E as <- <-. split; [lia|]. rewrite firstn_nil. cbn [max_width]. lia.
+  - rewrite zlen_cons in Hlen. pose proof (zlen_nonneg t).
+    inversion Hok as [|? ? [Hl1 Hl2] Ht]; subst.
+    destruct (MaxH <=? H0) eqn:E1.
+    { injection E as <- <-. split; [lia|]. rewrite Z.sub_diag. cbn [Z.to_nat firstn max_width]. lia. }
+    rewrite u16_id in E by lia. rewrite (u16sum_eq l Hl1 Hl2) in E.
+    pose proof (sumw_nonneg l Hl1) as Hs.
+    apply IH in E; try lia; auto.
+    + destruct E as [E2 E3]. split; [lia|].
+      replace (Z.to_nat (H - H0)) with (S (Z.to_nat (H - (H0 + 1)))) by lia.
+      cbn [firstn max_width]. rewrite E3.
+      destruct (W0 <? sumw l) eqn:E4; destruct (MaxW <? _) eqn:E5; lia.
+    + destruct (W0 <? sumw l); destruct (MaxW <? _) eqn:E5; lia.
+Qed.
+
+(* a surface of the right width drops nothing: with no zero-width character, what shown_b finds up
+   to the width of the surface is everything that starts left of Max.Width *)
+Lemma drawn_of_shown restyle MaxW W buf i : W <= MaxW ->
+  forall chars col, wok chars -> (forall ch, In ch chars -> 0 < c_width ch) ->
+    Z.min MaxW (col + sumw chars) <= W ->
+    shown_b restyle W buf i chars col = true ->
+    drawn_b restyle MaxW W buf i chars col = true.
+Proof.
+  intros HW. induction chars as [|ch t IH]; intros col Hw Hpos Hmin Hs; cbn [drawn_b]; [reflexivity|].
+  inversion Hw as [|? ? Hch Ht]; subst. rewrite sumw_cons in Hmin. pose proof (sumw_nonneg t Ht) as Hn.
+  assert (Hp : 0 < c_width ch) by (apply Hpos; left; reflexivity).
+  destruct (MaxW <=? col) eqn:E1; [reflexivity|].
+  cbn [shown_b] in Hs. replace (W <=? col) with false in Hs by lia.
+  apply andb_true_iff in Hs. destruct Hs as [Hs1 Hs2].
+  replace (col <? W) with true by lia. rewrite Hs1. cbn [andb].
+  apply IH; auto; [intros c Hc; apply Hpos; right; exact Hc|lia].
+Qed.
+
+(* the predicate alone: exact cells + the right width imply that nothing is dropped *)
+Lemma surface_full_of_exact_width restyle fill lines MaxW MaxH obs :
+  Forall (fun l => wok l) lines -> has_zero_width lines = false ->
+  surface_exact_b restyle fill lines MaxW MaxH obs = true -> surface_width_b lines MaxW obs = true ->
+  surface_full_b restyle fill lines MaxW MaxH obs = true.
+Proof.
+  intros Hok Hz He Hwd. unfold surface_full_b. rewrite He, Hwd. cbn [andb].
+  destruct obs as [[W H] buf]. unfold surface_exact_b in He. apply andb_true_iff in He. destruct He as [Hs He].
+  unfold surface_width_b in Hwd. apply Z.eqb_eq in Hwd.
+  rewrite forallb_forall in He. apply forallb_forall. intros i Hi. specialize (He i Hi).
+  apply in_map_iff in Hi. destruct Hi as [ni [<- Hi]]. apply in_seq in Hi.
+  destruct (zget lines (Z.of_nat ni)) as [l|] eqn:Hl; [|discriminate].
+  assert (Hlin : In l lines) by (eapply zget_In; eauto).
+  assert (Hwl : wok l) by (rewrite Forall_forall in Hok; auto).
+  apply drawn_of_shown; auto.
+  - lia.
+  - intros ch Hch. unfold has_zero_width in Hz.
+    destruct (c_width ch <=? 0) eqn:E; [|lia]. exfalso.
+    assert (existsb (existsb (fun c => c_width c <=? 0)) lines = true); [|congruence].
+    apply existsb_exists. exists l. split; auto. apply existsb_exists. exists ch. auto.
+  - pose proof (max_width_ge (firstn (Z.to_nat H) lines) l) as Hge.
+    rewrite Z.add_0_l. specialize (Hge (zget_firstn_In lines (Z.of_nat ni) H l Hl ltac:(lia))). lia.
+Qed.
+
+Theorem draw_softwrap_sized restyle fill lines MaxW MaxH :
+  0 <= MaxW < 65536 -> 0 <= MaxH < 65536 -> zlen lines < 65536 -> Forall line_ok lines ->
+  exists obs, draw_softwrap restyle fill lines MaxW MaxH = Some obs /\
+              surface_sized_b restyle fill lines MaxW MaxH obs = true.
+Proof.
+  intros HMW HMH Hlen Hok.
+  destruct (draw_softwrap_ok restyle fill lines MaxW MaxH HMW HMH Hlen Hok) as [[[W H] buf] [Hd Hs]].
+  exists (W, H, buf). split; [exact Hd|]. unfold surface_sized_b. rewrite Hs. cbn [andb].
+  unfold draw_softwrap in Hd. destruct (container_size lines MaxW MaxH 0 0) as [W' H'] eqn:Ec.
+  destruct (draw_rows _ _ _ _ _ _ _ _) as [b|]; [|discriminate]. injection Hd as -> -> ->.
+  pose proof (zlen_nonneg lines).
+  apply container_size_width in Ec; try lia; auto. destruct Ec as [_ Ec].
+  unfold surface_width_b. rewrite Z.sub_0_r in Ec.
+  pose proof (max_width_nonneg (firstn (Z.to_nat H) lines)). apply Z.eqb_eq. lia.
+Qed.
+
+Theorem draw_softwrap_full restyle fill lines MaxW MaxH :
+  0 <= MaxW < 65536 -> 0 <= MaxH < 65536 -> zlen lines < 65536 -> Forall line_ok lines ->
+  has_zero_width lines = false ->
+  exists obs, draw_softwrap restyle fill lines MaxW MaxH = Some obs /\
+              surface_full_b restyle fill lines MaxW MaxH obs = true.
+Proof.
+  intros HMW HMH Hlen Hok Hz.
+  destruct (draw_softwrap_exact restyle fill lines MaxW MaxH HMW HMH Hlen Hok Hz) as [obs [Hd He]].
+  destruct (draw_softwrap_sized restyle fill lines MaxW MaxH HMW HMH Hlen Hok) as [obs' [Hd' Hs]].
+  rewrite Hd in Hd'. injection Hd' as <-.
+  exists obs. split; [exact Hd|]. unfold surface_sized_b in Hs. apply andb_true_iff in Hs.
+  apply surface_full_of_exact_width; auto; [|apply Hs].
+  eapply Forall_impl; [|exact Hok]. intros l [Hl _]. exact Hl.
+Qed.
+
+(* the size clause is needed: a surface one column too narrow satisfies the old predicate
+   (surface_exact_b) although the second character of the line is dropped *)
+Lemma draw_width_clause_needed :
+  let lines := [[mkCell [97] 1 0]; [mkCell [28450] 2 0; mkCell [28450] 2 0]] in
+  let narrow := (1, 2, [mkCell [97] 1 0; mkCell [28450] 2 0]) in
+  has_zero_width lines = false /\
+  surface_exact_b (fun c => c) 0 lines 10 10 narrow = true /\
+  surface_full_b (fun c => c) 0 lines 10 10 narrow = false.
+Proof. cbn zeta. repeat split; reflexivity. Qed.
